@@ -2,7 +2,9 @@ import Tcs.Generated.HandlerSrc
 namespace Tcs
 
 /-- `WebServer::config` registers ONE scope at the root, wrapped in the default-headers middleware and in nothing else,
-    containing the index route and the four protocol services, and nothing outside that scope (`"DefaultHeaders"` = a
+    containing the index route and the four protocol services; outside that scope only the default service for requests no
+    route matches (a request target that is not a path: `OPTIONS *`), which answers 404 with the same header (since the
+    `fix:` commit 885554f); nothing else (`"DefaultHeaders"` = a
     `middleware::DefaultHeaders::new()` with `.add`s only, whose header list is tied by `handlerSrc_routes`; arguments hoisted
     into `let` bindings are inlined by the translator) (C20: every response is
     produced under the wrapper; `serve` = `route` followed by the header) -/
@@ -10,7 +12,8 @@ theorem handlerSrc_scope :
     HandlerSrc.scopeChain =
       [("scope", ""), ("app_data", "web::Data::new(self.server_state.clone())"),
        ("wrap", "DefaultHeaders"),
-       ("service", "index"), ("service", "api_scope()"), ("around", "cfg.service(|);")] ∧
+       ("service", "index"), ("service", "api_scope()"),
+       ("default_service", "404:Cache-Control=no-store, max-age=0"), ("around", "cfg.service(|);")] ∧
     HandlerSrc.apiServices = ["get_child_version::service", "add_version::service", "get_snapshot::service", "add_snapshot::service"] ∧
     HandlerSrc.indexRoute = ("GET", "/") := ⟨rfl, rfl, rfl⟩
 
